@@ -762,6 +762,12 @@ void run_history(const J &hist) {
     ev("{\"e\":\"end\",\"nocb\":[],\"frames\":0,\"leaked\":%ld,\"allocs\":%ld}", g_live_allocs, g_alloc_count);
     return;
   }
+  if (g_cfg["localip"].num()) {  // a configured source address: every new socket is bound to it
+    ares_set_local_ip4(g_channel, 0x0a090001u);
+    unsigned char ip6[16] = {0xfd, 9, 0, 0, 0, 0, 0, 0, 0, 0, 0, 0, 0, 0, 0, 1};
+    ares_set_local_ip6(g_channel, ip6);
+  }
+  if (g_cfg["localdev"].num()) ares_set_local_dev(g_channel, "lo");
   ares_set_server_state_callback(g_channel, server_state_cb, nullptr);
   if (g_cfg["pendwrite"].num()) ares_set_pending_write_cb(g_channel, pending_write_cb, nullptr);
   if (g_cfg.has("sortlist")) ares_set_sortlist(g_channel, g_cfg["sortlist"].str().c_str());
